@@ -20,7 +20,7 @@ from .core import Relation, err_kind
 
 PROP = "C05"
 CLAIMED = False
-COQ_MODULES = ["C05_Check", "C05_Proofs", "C05_ProofsText"]
+COQ_MODULES = ["C05_Check", "C05_Proofs", "C05_ProofsCodec", "C05_ProofsText"]
 PROPERTY_MODULE = "C05_Property"
 ALLOWED_AXIOMS = []
 RULE = (
@@ -174,10 +174,23 @@ def gen_request(rng, tbl):
     return [names[0]] + names
 
 
-def build_bp(tbl, d):
+def build_bp(tbl, d, via_file=False):
+    """A Breakpoints object holding tbl: data assigned directly, or (via_file) written as a .bp file by the
+    harness and loaded with Breakpoints.load - the path the CLI takes."""
     from haptools.data import Breakpoints
     from haptools.data.breakpoints import HapBlock
 
+    if via_file:
+        path = os.path.join(d, "in.bp")
+        with open(path, "w") as f:
+            for nm, s0, s1 in tbl:
+                for t, st in ((1, s0), (2, s1)):
+                    f.write(f"{nm}_{t}\n")
+                    for b in st:
+                        f.write(f"{b[0]}\t{b[1]}\t{b[2]}\t{b[3]!r}\n")
+        bp = Breakpoints(path, log=quiet_log())
+        bp.read()
+        return bp
     bp = Breakpoints(os.path.join(d, "x.bp"), log=quiet_log())
     bp.data = {
         nm: [np.array([tuple(b) for b in s0], dtype=HapBlock), np.array([tuple(b) for b in s1], dtype=HapBlock)]
@@ -265,7 +278,7 @@ class Find(Relation):
     coq_case_type = "fcase"
     coq_model = "model_find"
     coq_imports = ["Tracts", "BpText", "C05_Model"]
-    budget = {"quick": 1500, "thorough": 20000}
+    budget = {"quick": 1500, "thorough": 10000}
     anchors = [("haptools/data/breakpoints.py", "Breakpoints._find_blocks")]
 
     def generate(self, rng, n, tier):
@@ -358,7 +371,7 @@ class Lookup(Relation):
     coq_case_type = "lcase"
     coq_model = "model_lookup"
     coq_imports = ["Tracts", "BpText", "C05_Model"]
-    budget = {"quick": 800, "thorough": 15000}
+    budget = {"quick": 800, "thorough": 8000}
     anchors = [("haptools/data/breakpoints.py", "Breakpoints.population_array"),
                ("haptools/data/breakpoints.py", "Breakpoints._find_blocks")]
 
@@ -366,7 +379,8 @@ class Lookup(Relation):
         out = []
         for _ in range(n):
             tbl, chroms = gen_table(rng, malformed=0.08 if rng.random() < 0.3 else 0.0)
-            out.append({"tbl": tbl, "qs": gen_queries(rng, tbl, chroms), "req": gen_request(rng, tbl)})
+            out.append({"tbl": tbl, "qs": gen_queries(rng, tbl, chroms), "req": gen_request(rng, tbl),
+                        "via_file": bool(rng.random() < 0.3)})
         return out
 
     def exhaustive(self, tier):
@@ -389,7 +403,7 @@ class Lookup(Relation):
     def run_impl(self, inp):
         d = tempfile.mkdtemp(prefix="hv_c05_")
         try:
-            bp = build_bp(inp["tbl"], d)
+            bp = build_bp(inp["tbl"], d, via_file=inp.get("via_file", False))
             try:
                 arr = bp.population_array(variants_array(inp["qs"]), samples=None if inp["req"] is None else tuple(inp["req"]))
                 return {"ok": arr.tolist(), "shape": list(arr.shape)}
@@ -414,6 +428,8 @@ class Lookup(Relation):
 
     def classes(self, inp, obs):
         out = lookup_classes(inp["tbl"], inp["qs"], inp["req"])
+        if inp.get("via_file"):
+            out.append("loaded-from-file")
         if isinstance(obs, dict) and "err" in obs:
             out.append(f"err{obs['err']}")
         return out
@@ -476,7 +492,7 @@ class Codec(Relation):
     coq_case_type = "ecase"
     coq_model = "model_codec"
     coq_imports = ["Tracts", "BpText", "C05_Model"]
-    budget = {"quick": 500, "thorough": 8000}
+    budget = {"quick": 500, "thorough": 4000}
     anchors = [("haptools/data/breakpoints.py", "Breakpoints.encode"),
                ("haptools/data/breakpoints.py", "Breakpoints.recode"),
                ("haptools/data/breakpoints.py", "Breakpoints.population_array")]
@@ -486,7 +502,7 @@ class Codec(Relation):
         for _ in range(n):
             tbl, chroms = gen_table(rng, malformed=0.06 if rng.random() < 0.2 else 0.0)
             out.append({"tbl": tbl, "given": gen_given(rng, tbl), "qs": gen_queries(rng, tbl, chroms),
-                        "req": gen_request(rng, tbl)})
+                        "req": gen_request(rng, tbl), "via_file": bool(rng.random() < 0.3)})
         return out
 
     def exhaustive(self, tier):
@@ -510,7 +526,7 @@ class Codec(Relation):
     def run_impl(self, inp):
         d = tempfile.mkdtemp(prefix="hv_c05_")
         try:
-            bp = build_bp(inp["tbl"], d)
+            bp = build_bp(inp["tbl"], d, via_file=inp.get("via_file", False))
             given = None if inp["given"] is None else tuple(inp["given"])
             obs = {}
             try:
@@ -582,6 +598,8 @@ class Codec(Relation):
         out.append(f"labels={len(labs)}")
         if any(not s0 or not s1 for _, s0, s1 in inp["tbl"]):
             out.append("tbl:empty-strand")
+        if inp.get("via_file"):
+            out.append("loaded-from-file")
         if isinstance(obs, dict) and "rec" in obs and "err" in obs["rec"]:
             out.append(f"recode-err{obs['rec']['err']}")
         return out
@@ -732,7 +750,7 @@ class Read(Relation):
     coq_case_type = "rcase"
     coq_model = "model_read"
     coq_imports = ["Tracts", "BpText", "C05_Model"]
-    budget = {"quick": 300, "thorough": 6000}
+    budget = {"quick": 300, "thorough": 3000}
     max_cases_per_shard = 60
     anchors = [("haptools/data/breakpoints.py", "Breakpoints.__iter__"),
                ("haptools/data/breakpoints.py", "Breakpoints.read")]
@@ -855,7 +873,7 @@ class Write(Relation):
     coq_case_type = "wcase"
     coq_model = "model_write"
     coq_imports = ["Tracts", "BpText", "C05_Model"]
-    budget = {"quick": 250, "thorough": 5000}
+    budget = {"quick": 250, "thorough": 2500}
     max_cases_per_shard = 60
     anchors = [("haptools/data/breakpoints.py", "Breakpoints.write"),
                ("haptools/data/breakpoints.py", "Breakpoints.__iter__")]
